@@ -226,6 +226,19 @@ pub fn eval_ws(w: &LspWs, dir: &PathBuf) -> Result<(Vec<(String, String)>, u64),
         cmp(&mut problems, "diagnostics", format!("diagnostics of {path}"), &json!(got), &json!(want));
     }
 
+    // independently of the analysis: the syntax errors of a file's own text are published for that file,
+    // in that file's coordinates (an error of an included file must not surface under its includer)
+    for (path, text) in &abs {
+        let uri = uri_of(&PathBuf::from(path));
+        let Some(p) = latest.get(&uri) else { continue };
+        let got: Vec<Value> = p["diagnostics"].as_array().cloned().unwrap_or_default().iter().map(|d| json!({ "range": d["range"], "message": d["message"] })).collect();
+        for e in syntax::parse(text).errors() {
+            let want = json!({ "range": m.range(path, e.range), "message": e.message });
+            let held = if got.contains(&want) { want.clone() } else { json!(got) };
+            cmp(&mut problems, "syntax-error-of-the-file", format!("{path}: a syntax error of its own text among the diagnostics published for it"), &held, &want);
+        }
+    }
+
     let files: Vec<(FileId, String)> = {
         let mut v: Vec<(FileId, String)> = diags.keys().map(|f| (*f, ide.fs.path_of(*f))).collect();
         v.sort_by(|x, y| x.1.cmp(&y.1));
@@ -340,7 +353,7 @@ impl Engine for C09 {
         format!(
             "three-file workspaces: root a.td = prologue + include \"b.td\" + include of a file whose name has a blank and non-ASCII letters + every sequence of 1..={} of {} statements that use b's declarations; b.td = a longer, differently-lined prologue + all {} declarations or all but one; \
              x {{ASCII, 'é😀' before every statement and inside a string}} x {{LF, CRLF}} x {{complete, or ending in an unterminated statement whose last token touches the end of the text (both files)}}; the root is opened in the real server (framed JSON-RPC over an in-memory pipe) and, one message at a time, \
-             definition and references at the start and middle of every identifier of both files, documentSymbol, foldingRange, documentLink, inlayHint(whole file) per file and the published diagnostics are compared; finally the root is edited so that every byte offset stays and every line number moves, and the diagnostics the client then holds are compared again. \
+             definition and references at the start and middle of every identifier of both files, documentSymbol, foldingRange, documentLink, inlayHint(whole file) per file and the published diagnostics are compared (the syntax errors of each file's own text, parsed independently, must be among the diagnostics published for that file); finally the root is edited so that every byte offset stays and every line number moves, and the diagnostics the client then holds are compared again. \
              non-trivial = every workspace (each has cross-file locations); distinct by construction.",
             tier.pick(2, 3),
             A_ITEMS.len(),
